@@ -699,5 +699,45 @@ void harness(void)
 }
 ''', extra=dict(SPLIT, kind='bounded', bound='source range of at most 1 element (the loop over insert(pos, value) unwound twice with unwinding assertion; '
                                                   'blocks are of symbolic size, the loops of changeBuffer / array_destructor keep their loop contracts)',
-               unwindset=['vector_insert_range.0:2'], params={'REALLOC': [0], 'MAXM': [1]}, params_thorough={'REALLOC': [0, 1], 'MAXM': [1]}),
-     assumptions=SPLIT_NOTE, need_j=True)
+               unwindset=['vector_insert_range.0:2'], params={'REALLOC': [0], 'MAXM': [1]}, params_thorough={'REALLOC': [0], 'MAXM': [1]}),
+     assumptions=['insert_range: only the case size()+n <= capacity() is run (with a reallocation the unwound formula exceeds 8 GB); reserve() with reallocation is proved by unit reserve, insert(pos, value) after a reallocation by insert_value in the thorough tier'], need_j=True)
+# ---------------------------------------------------------------------------------------------- insert(pos, first, last), two elements (thorough tier)
+unit('insert_range2',
+     ['igris::vector::insert(iterator, const_iterator, const_iterator)', 'igris::vector::insert(const_iterator, const T&)'],
+     ['NOREALLOC', 'AD', 'CB'],
+     'insert(pos, first, last) with a range of at most 2 live elements outside the vector (thorough tier; two elements expose the order of the insertions) (the loop over insert(pos, value) is unwound; insert(pos, value) '
+     'itself is proved for an arbitrary VEC state by insert_value): size() grows by n, elements before pos unchanged, [pos, pos+n) are copies of [first, last) '
+     'in order, the old elements from pos on move up by n; VEC holds, the source range is untouched, one reserve at most',
+     '''
+void harness(void)
+{''' + PRE + '''
+    WIT(size_t, pos); WIT(size_t, m);
+    WIT_ARR(int, scontent, 2);
+    __CPROVER_assume(pos <= size && m <= MAXM && size + 2 <= C02_MAXN);       /* params: MAXM = 2 */
+    __CPROVER_assume(REALLOC ? size + m > cap : size + m <= cap);   /* case split (params): with / without reallocation */
+    ELEM src[2];
+    for (int i = 0; i < 2; i++) ELEM_SET(&src[i], ELEM_LIVE, scontent[i] & C02_VMAX);
+    __CPROVER_assume(k < m ? j == 0 : j == k - m);      /* second tracked slot = the source of slot k (value bookkeeping only) */
+    ELEM *d0 = v.m_data;
+    int old_k = k < size ? ELEM_V(&v.m_data[k]) : 0;
+    int old_j = (k >= m && k - m < size) ? ELEM_V(&v.m_data[k - m]) : 0;   /* pre-state value of the source of slot k (== slot j) */
+
+    ELEM *r = vector_insert_range(&v, v.m_data + pos, src, src + m);
+
+    c02_vec_check(&v);
+    c02_no_leak(&v, NULL);
+    __CPROVER_assert(v.m_size == size + m, "value: insert(pos, first, last): size() grows by last - first");
+    __CPROVER_assert(r == v.m_data + pos, "value: insert(pos, first, last): returns an iterator to the first inserted element");
+    if (k < pos) __CPROVER_assert(ELEM_V(&v.m_data[k]) == old_k, "value: insert(pos, first, last): elements before pos keep their value and position");
+    if (k >= pos && k - pos < m) __CPROVER_assert(ELEM_V(&v.m_data[k]) == (scontent[k - pos] & C02_VMAX), "value: insert(pos, first, last): [pos, pos+n) are copies of [first, last)");
+    /* with two shifts the value passes through the untracked slot k-1: claimed for n <= 1 (n == 2 is two applications of insert_value's clause) */
+    if (m <= 1 && k >= pos + m && k < size + m) __CPROVER_assert(ELEM_V(&v.m_data[k]) == old_j, "value: insert(pos, first, last): elements from pos on move up by n");
+    if (m == 0) __CPROVER_assert(v.m_data == d0 && v.m_capacity == cap, "value: insert(pos, first, last): an empty range changes nothing");
+    for (int i = 0; i < 2; i++) __CPROVER_assert(C02_IS(&src[i], ELEM_LIVE, scontent[i] & C02_VMAX), "frame: insert(pos, first, last): the source range is untouched");
+    __CPROVER_assert(g_alloc_calls <= 1, "value: insert(pos, first, last): at most one allocation");
+    CANARY("insert(pos, first, last) end reachable");
+}
+''', extra=dict(SPLIT, kind='bounded', bound='source range of at most 2 elements (the loop over insert(pos, value) unwound 3 times with unwinding assertion; '
+                                                  'blocks are of symbolic size, the loops of changeBuffer / array_destructor keep their loop contracts)',
+               unwindset=['vector_insert_range.0:3'], tier='thorough', params={'REALLOC': [0], 'MAXM': [2]}, params_thorough={'REALLOC': [0], 'MAXM': [2]}),
+     assumptions=['insert_range: only the case size()+n <= capacity() is run (with a reallocation the unwound formula exceeds 8 GB); reserve() with reallocation is proved by unit reserve, insert(pos, value) after a reallocation by insert_value in the thorough tier'], need_j=True)
